@@ -163,7 +163,8 @@ def run_impl(case, copy_inputs=True, strict=False):
         warnings.simplefilter("ignore")
         if strict:
             # (only the two events numpy's masked arithmetic promises to handle itself: x/0 and 0/0 never reach the caller)
-            warnings.filterwarnings("error", message=".*(divide by zero|invalid value).*")
+            # ... and every other warning (deprecations, user warnings) is an error too: a command that works must not warn
+            warnings.simplefilter("error")
             old = numpy.seterr(divide="raise", invalid="raise", over="ignore", under="ignore")
         else:
             old = numpy.seterr(all="ignore")
@@ -912,7 +913,8 @@ def run_stream(ctx, model, cases, stream, tol=common.TOL, on_result=None, rerun=
                             b.mask = mm.copy()
                             numpy.ma.getdata(b)[...] = dd
                         break
-        if strict and out["status"] == "ok" and c.cmd not in STRICT_EXEMPT:
+        if strict and out["status"] == "ok" and c.cmd not in STRICT_EXEMPT and out["vis"][3] is not None and any(v is not None for v in out["vis"][3]):
+            # (a field without a single present cell is a degenerate input: its minimum / maximum is numpy's `masked`, whose conversion warns on the pinned tree)
             # the caller's numpy error settings are not the command's business: with x/0 and 0/0 set to raise (and the matching warnings turned into
             # errors) - the two events masked arithmetic handles itself - the outcome is the same
             out4 = run_impl(c, strict=True)
